@@ -22,9 +22,11 @@ for d in /verif/seeded/${1:-*}/; do
   b=$(go build ./... 2>&1 | tail -1)
   r1=$(go test -vet=off -count=1 -run "^($run)\$" $pkg 2>&1 | grep -E "^(ok|FAIL|---)" | tail -1)
   rm -f $WT/$dpath
+  mkdir -p /tmp/tmp_verify_seeds /tmp/home_verify_seeds
   t2=$(TMPDIR=/tmp/tmp_verify_seeds HOME=/tmp/home_verify_seeds GOPATH=/root/go GOMODCACHE=/root/go/pkg/mod GOCACHE=/root/.cache/go-build go test -vet=off -count=1 ./ledger/... ./ctrlers/account/... ./ctrlers/stake/... ./ctrlers/types/... ./ctrlers/vm/... ./node/... ./types/... 2>&1)
   r2=$(echo "$t2" | grep -E "^(FAIL|---|panic)" | head -3 | tr '\n' ' ')
   nok=$(echo "$t2" | grep -c "^ok")
+  [ "$nok" = 0 ] && r2="NO PACKAGE RAN: $(echo "$t2" | head -2 | tr '\n' ' ')"
   echo "$s: demo_on_unchanged=[$r0] build=[$b] demo_with_patch=[$r1] existing_tests: ok_packages=$nok failures=[$r2]" >> $OUT
 done
 cd /; git -C /repo worktree remove --force $WT
